@@ -60,3 +60,62 @@ Theorem C05_hyphen_opt_takes_dashdash : forall c rest ls st i a,
                (st <| mt := m1 |>).
 Proof. exact hyphen_opt_takes_dashdash. Qed.
 Print Assumptions C05_hyphen_opt_takes_dashdash.
+
+(** Verbatim delivery (class [sink]: after the escape every token goes to one multi-valued
+    positional without terminator -- the last positional when [last]/[allow_missing_positional]
+    is present, the current one otherwise).  After [--] and a non-empty tail the loop ends with
+    the tail appended, byte for byte and in order, to the pending occurrence of that positional;
+    the trailing index marks where the tail starts; entries, subcommand and index counter of the
+    matcher are those of [flush_for a st], i.e. the state at the escape with the occurrence open
+    there closed as it is closed when nothing follows the [--]. *)
+Theorem C05_tail_verbatim : forall c tok tail ls st st' a,
+  l_trailing ls = true -> sink_arg c (l_pos ls) = Some a ->
+  parse_loop c (tok :: tail) ls st = ROk (LDone st') ->
+  exists st0 p, flush_for c a st = ROk st0 /\
+    mt_pending (mt st') = Some p /\ beq (p_id p) (a_id a) = true /\
+    p_raw p = pend_raw (mt st0) ++ tok :: tail /\
+    p_trailing_idx p = Some (pend_ti (mt st0)) /\
+    mt_args (mt st') = mt_args (mt st0) /\ mt_sub (mt st') = mt_sub (mt st0) /\
+    cur_idx st' = cur_idx st0.
+Proof. exact trailing_done_sink. Qed.
+Print Assumptions C05_tail_verbatim.
+
+(** [react]'s delimiter block: with [dont_delimit_trailing_values] the values from the trailing
+    index on are not split at all, whatever precedes them in the same occurrence. *)
+Theorem C05_delimit_trailing_verbatim : forall c a before tail before',
+  is_set s_dont_delimit_trailing c = true ->
+  delimit c a before (Some (N.of_nat (length before))) = Some before' ->
+  delimit c a (before ++ tail) (Some (N.of_nat (length before))) = Some (before' ++ tail).
+Proof. exact delimit_trailing_verbatim. Qed.
+Print Assumptions C05_delimit_trailing_verbatim.
+
+(** ... and without a declared delimiter nothing is ever split; a value that does not contain the
+    delimiter is never changed. *)
+Theorem C05_delimit_no_delimiter : forall c a raw ti, a_delim a = None -> delimit c a raw ti = Some raw.
+Proof. exact delimit_no_delimiter. Qed.
+Print Assumptions C05_delimit_no_delimiter.
+
+Theorem C05_delimit_clean_values : forall ddt db ti l i,
+  forallb (fun v => negb (contains v db)) l = true -> delimit_go ddt db ti i l = Some l.
+Proof. exact delimit_go_clean. Qed.
+Print Assumptions C05_delimit_clean_values.
+
+(** No token after the escape is a help or version request: a DisplayHelp/DisplayVersion error of
+    the trailing-mode loop can only come out of closing a pending occurrence of an argument whose
+    action is Help/Version (such arguments take no values), in a state reached by [tstep]s. *)
+Theorem C05_trailing_no_display : forall c toks ls st e st',
+  l_trailing ls = true -> parse_loop c toks ls st = RErr e st' -> is_display (e_kind e) = true ->
+  exists pre tok rest ls1 st1 p a,
+    toks = pre ++ tok :: rest /\ truns c (tok :: rest) pre ls st ls1 st1 /\
+    mt_pending (mt st1) = Some p /\ find_arg c (p_id p) = Some a /\ display_action a = true.
+Proof. exact trailing_no_display. Qed.
+Print Assumptions C05_trailing_no_display.
+
+(** Flags and options keep their values: closing an occurrence of [a] (the only way the tail
+    reaches the matcher entries) changes no entry outside [touched c a] = [a] itself, the groups
+    of [a], the arguments [a] overrides and those overriding [a]. *)
+Theorem C05_prefix_entries_unchanged : forall c st st' p a x,
+  mt_pending (mt st) = Some p -> find_arg c (p_id p) = Some a -> touched c a x = false ->
+  resolve_pending c st = ROk st' -> get_entry x st' = get_entry x st.
+Proof. exact resolve_pending_frame. Qed.
+Print Assumptions C05_prefix_entries_unchanged.
